@@ -1846,7 +1846,10 @@ func CantAdd(mach am.Api, states am.S, args am.A) bool {
 	args2 := &am.ACheck{
 		CheckDone: make(chan struct{}),
 	}
-	mach.CanAdd(states, am.PassMerge(args, am.Pass(args2)))
+	// refused outright (eg disposed): nothing will close CheckDone
+	if mach.CanAdd(states, am.PassMerge(args, am.Pass(args2))) == am.Canceled {
+		return true
+	}
 	<-args2.CheckDone
 
 	return !args2.Canceled
@@ -1862,7 +1865,10 @@ func CantRemove(mach am.Api, states am.S, args am.A) bool {
 	args2 := &am.ACheck{
 		CheckDone: make(chan struct{}),
 	}
-	mach.CanRemove(states, am.PassMerge(args, am.Pass(args2)))
+	// refused outright (eg disposed): nothing will close CheckDone
+	if mach.CanRemove(states, am.PassMerge(args, am.Pass(args2))) == am.Canceled {
+		return true
+	}
 	<-args2.CheckDone
 
 	return !args2.Canceled
